@@ -32,11 +32,11 @@ CLAIMED = {
    "DESIGN.md §6 C04",
    "Lean kernel; axioms propext/Classical.choice/Quot.sound only; hand-written model tied by correspondence; Debug/JSON escaping modelled for the generated alphabet.",
    "Lean 4 model of the iterator windows + refinement to list operations on the forest + random-script correspondence with pest::iterators"),
- "C01": ("other",
-   "The documented semantics is written down as an independent executable reference denotation in Lean (PestModel.Ref: ordered choice, greedy repetition, predicates, implicit WHITESPACE/COMMENT, the four modifiers, built-ins, the stack; failure returns no state) and the real pipeline (optimize + Vm::parse, hook-free) is compared against it on every start rule and ALL inputs up to a length bound for random guarded grammars, in two builds (default, grammar-extras); the lowering VM model (PestModel.Lower.vmExpr over the proved ParserState model) is in place; the refinement theorem vm_refines_denote is not yet proved, hence level other.",
-   "DESIGN.md §6 C01",
-   "Reference denotation = transcription of derive/src/lib.rs prose + DESIGN §10 decisions; differential comparison as strong as the grammar/input generator; lister finding classified with hook H2.",
-   "Lean 4 reference denotation as oracle + exhaustive-per-grammar differential against optimize+Vm::parse (default and grammar-extras)"),
+ "C01": ("proof",
+   "The documented semantics is written down as an independent executable reference denotation in Lean (PestModel.Ref) and Vm::parse as call trees over the proved ParserState model (PestModel.Lower.vmExpr/vmRule, tied to the real VM by the V-line correspondence of C08/C12/C15). Kernel-checked for every optimized grammar, start rule, input and fuel: vm_refines_denote_partial (every definite outcome of the VM model is the reference's: same end position and stack, token queue = encoding of the reference's forest of pairs, failure = failure, Rust panic = documented stuck), vm_terminates_partial and vm_agrees_partial, under the side conditions TagRules (tags only on token-emitting operands), WHITESPACE/COMMENT do not modify the stack, fewer than 333333334 rules; the unrestricted statements are REFUTED in Lean by concrete grammars (vm_refines_denote_refuted_tag / _ws / _tag_noextras / _undefined_slot, vm_terminates_refuted), the _ws one reproduced on the real VM and recorded as a known finding. The real pipeline (optimize + Vm::parse, hook-free) is compared against the reference on every start rule and ALL inputs up to a length bound for random guarded grammars incl. stack-stress, predicate-over-rule, skip-until and WHITESPACE-through-rule idioms, in two builds.",
+   "DESIGN.md §6 C01, §13",
+   "Lean kernel (axioms propext/Classical.choice/Quot.sound) for the VM model vs the reference under stated side conditions; reference denotation = transcription of derive/src/lib.rs prose + DESIGN §10 decisions; real VM tied by differential and V-line correspondence; lister and whitespace-stack-leak findings classified.",
+   "Lean 4 simulation proof (lowered VM over the ParserState model refines the reference denotation) + exhaustive-per-grammar differential against optimize+Vm::parse"),
  "C05": ("proof",
    "Lean transcriptions of all seven passes and of optimize() whose outputs are compared AS TREES with the real passes (hook H2) on every run — the tightest tie a pure function admits — in two builds (default, grammar-extras); meaning preservation is kernel-checked against the reference denotation for every grammar, input, mode and stack: rotate_preserves, unroll_preserves, concat_preserves, factor_preserves, skip_preserves (at boundary positions; the unrestricted form is refuted), rules_congruence, and pipeline_preserves_without_list (the whole pipeline minus `list`, as an iff on definite results incl. pairs), plus list_not_preserving (the lister rewrite is NOT meaning-preserving: recorded known finding) and denote_fuel_mono / evals_det; the check additionally searches inputs up to a length bound per pass.",
    "DESIGN.md §6 C05",
@@ -92,11 +92,11 @@ CLAIMED = {
    "DESIGN.md §6 C07",
    "round trip sampling with the abstract grammar as oracle; Lean kernel for the proved parts; regenerated meta-grammar.",
    "print/read round trip with random spellings + Lean 4 theorems on unescape / numbers / precedence stage"),
- "C06": ("other",
-   "A Lean model of validate_ast (is_non_failing, is_non_progressing, validate_repetition / choices / whitespace_comment, left_recursion after the fix, tag checks) is compared with pest_meta's verdict — accepted, or the exact multiset of finding kinds and left-recursive rules — on thousands of near-miss grammars (recursion through every operator, empty strings, non-failing bodies), in two builds; soundness is checked on the implementation by running accepted stack-free grammars in the VM on all short inputs in a child process under a time limit; completeness by requiring strictly guarded grammars to be accepted. The termination theorem (validator_sound over the reference semantics) and validator_complete are being attempted; two genuine soundness gaps were fixed (left recursion behind non-consuming prefixes / through bounded repetitions; tagged expressions unchecked with grammar-extras).",
-   "DESIGN.md §6 C06",
-   "verdict correspondence through the real front-end; termination observed (time limit), not proved, on the implementation.",
-   "Lean 4 validator model + verdict correspondence on near-miss grammars + child-process termination oracle"),
+ "C06": ("proof",
+   "A Lean model of validate_ast (is_non_failing, is_non_progressing, validate_repetition / choices / whitespace_comment, left_recursion, tag checks) is compared with pest_meta's verdict — accepted, or the exact multiset of finding kinds and left-recursive rules — on thousands of near-miss grammars in two builds. Kernel-checked: validator_complete (every strictly guarded, well-named grammar is accepted), validator_sound_partial (an accepted stack-free grammar terminates under the reference semantics from every rule, mode, position: for all inputs) under two side conditions (no node tags without grammar-extras; no `!{}` rule reachable from WHITESPACE/COMMENT), and validator_sound_refuted: the unrestricted soundness statement is FALSE — WHITESPACE = _{ a }  a = !{ EOI ~ \"x\" } is accepted and diverges (cexWs_accepted, cexWs_diverges) — reproduced on the real front-end + VM (native stack overflow) and recorded as a known finding. On the implementation: accepted stack-free grammars are run in the VM on all short inputs in a child process under a time limit; grammars the implementation accepts although the model rejects them go through the same oracle (failing input for verdict mismatches); strictly guarded grammars must be accepted. Three genuine defects fixed (left-recursion gaps, tagged expressions unchecked, exponential search).",
+   "DESIGN.md §6 C06, §13",
+   "Lean kernel for the validator model vs the reference semantics; verdict correspondence through the real front-end; termination observed (time limit) on the implementation.",
+   "Lean 4 validator model with soundness (partial, full form refuted) and completeness theorems + verdict correspondence on near-miss grammars + child-process termination oracle"),
 }
 REASON_TODO = "not claimed yet: machinery for this property is not built in the committed tree (planned in DESIGN.md §6); no check is registered rather than an unsound one"
 
